@@ -236,14 +236,21 @@ pub fn gen_header_value(rng: &mut Rng) -> String {
             (0..n).map(|_| { let c = rng.unicode_char(); if c.is_control() { 'x' } else { c } }).collect::<String>()
         }
         4 => rng.string_over(b"abcdefghijklmnopqrstuvwxyzABCDEFGHIJKLMNOPQRSTUVWXYZ0123456789 -_=;,/\"*():.", 1, 60),
-        5 => "x".repeat(rng.range(60, 200)),
+        5 => "x".repeat(if small() { 20 } else { rng.range(60, 200) }),
         6 => "a: b".to_string(),
         _ => rng.string_over(b"abc019", 1, 8),
     };
     v.trim_matches(|c: char| c == ' ' || c == '\t' || c == '\u{feff}' || c.is_whitespace()).to_string()
 }
 
+/// Miri-sized workloads: cap body and target sizes
+pub static SMALL: std::sync::atomic::AtomicBool = std::sync::atomic::AtomicBool::new(false);
+fn small() -> bool {
+    SMALL.load(std::sync::atomic::Ordering::Relaxed)
+}
+
 pub fn gen_body(rng: &mut Rng, class: usize) -> (Vec<u8>, &'static str) {
+    let class = if small() && (class == 5 || class == 6) { 7 } else { class };
     match class {
         0 => (vec![], "none"),
         1 => (b"x".to_vec(), "one"),
@@ -272,7 +279,7 @@ pub fn gen_request(rng: &mut Rng, allow_body: bool) -> GenReq {
         tshape.push('s');
     }
     if rng.chance(1, 12) {
-        target = format!("/{}", "p".repeat(rng.range(200, 880)));
+        target = format!("/{}", "p".repeat(if small() { 90 } else { rng.range(200, 880) }));
         tshape = "long".into();
     }
     if rng.chance(1, 2) {
